@@ -7,7 +7,68 @@ trapezoidal storage balance K(X I + (1-X) O) closes at every step; the engine ru
 catalogue (outputs and final states).  The StorageRouting clauses (iterative non-linear solve) are not
 covered by this technique; its hot-start behaviour is covered by C06.
 """
+from ..common import Infra
 from .. import exact
+
+
+def storage_routing(ctx):
+    """StorageRouting clauses: per-timestep laws validated by TLC on rank-encoded observations of real runs."""
+    import json, os
+    from ..common import run_vh, last_json
+    from .. import tracecheck
+    tr = os.path.join(ctx.scratch, "sr.ndjson")
+    rc, out, err = run_vh(ctx, ["srlaws", tr, "1500" if ctx.quick else "20000", "40"])
+    if rc != 0:
+        ctx.report({"kind": "crash", "model": "StorageRouting"}, "StorageRouting crashed on a case in the stable region: " + err[-1000:], {"stderr": err[-3000:]})
+        return
+    s = last_json(out)
+    for m in s["mismatches"]:
+        ctx.report({"kind": m["kind"], "model": "StorageRouting"}, "StorageRouting %s: %s params(bias,k,m,area,dead,dt)=%s" % (m["kind"], m["detail"], m.get("params")), m)
+    ctx.cov["evaluations"] += s["evaluations"]
+    ctx.cov["traces_validated_against_impl"] += s["distinct_nontrivial"]
+    accepted, consumed, total, res = tracecheck.validate(ctx, "TraceStorageRouting", tr, heap="8g")
+    if not accepted:
+        raise Infra("TraceStorageRouting did not consume the whole log (%s of %s)" % (consumed, total))
+    import re
+    mm = re.search(r'"LAW_VIOLATIONS",\s*(\{.*?\})\s*>>', res.stdout, re.S)
+    if not mm:
+        raise Infra("TraceStorageRouting reported no verdict")
+    viols = [(int(a), b) for a, b in re.findall(r'<<\s*(\d+),\s*"(\w+)"\s*>>', mm.group(1))]
+    with open(tr) as f:
+        evs = [json.loads(x) for x in f if x.strip()]
+    ctx.notes["storage_routing"] = {"cases": s["distinct_nontrivial"], "timesteps": s["evaluations"], "failing_timesteps": len(viols)}
+    seen = set()
+    for pos, law in sorted(viols):
+        ev = evs[pos - 1]
+        k = pos - 1
+        while k > 0 and evs[k]["ev"] != "case":
+            k -= 1
+        c = evs[k]
+        raw = c.get("raw", [0] * 6)
+        variant = ("dead" if raw[4] > 0 else "nodead") + "-" + ("area" if raw[3] > 0 else "noarea")
+        key = (k, law)
+        if key in seen:
+            continue
+        seen.add(key)
+        ctx.report({"kind": "storagerouting-" + law, "model": "StorageRouting", "variant": variant},
+                   "StorageRouting violates the %s law at timestep %s (params bias,k,m,area,dead,dt = %s): ranks %s"
+                   % (law, ev.get("t"), raw, {kk: ev[kk] for kk in ("resid", "tolb", "out", "sto", "rel", "tolr")}), {"event": ev, "case": c})
+    # binding self-test: a perturbed residual must be reported
+    def mutate(evs2):
+        ks = [i for i, e in enumerate(evs2) if e["ev"] == "step" and e["resid"] <= e["tolb"]]
+        kk = ks[len(ks) // 2]
+        evs2[kk]["resid"] = evs2[kk]["tolb"] + 1
+        return kk
+    with open(tr) as f:
+        evs2 = [json.loads(x) for x in f if x.strip()]
+    kk = mutate(evs2)
+    p2 = os.path.join(ctx.scratch, "sr-corrupt.ndjson")
+    with open(p2, "w") as f:
+        for e in evs2:
+            f.write(json.dumps(e) + "\n")
+    a2, c2, t2, r2 = tracecheck.validate(ctx, "TraceStorageRouting", p2, heap="8g")
+    if not re.search(r'<<\s*%d,\s*"balance"\s*>>' % (kk + 1), r2.stdout or ""):
+        raise Infra("binding self-test failed: a perturbed residual was not reported by TraceStorageRouting")
 
 
 def run(ctx):
@@ -17,5 +78,7 @@ def run(ctx):
     if s:
         for m in s["mismatches"]:
             ctx.report({"kind": m["kind"], "model": m["model"]}, "%s: %s | case %s" % (m["model"], m["detail"], str(m["case"].get("exact"))[:300]), m)
-    ctx.assumptions += ["claimed for the Lag and Muskingum clauses only; StorageRouting's water balance / storage-discharge relation is real-valued and iterative (DESIGN.md section 10)"]
+    storage_routing(ctx)
+    ctx.assumptions += ["Lag and Muskingum: exact; StorageRouting: laws over observed timesteps (rank-encoded), tolerance = 2x the solver's mass-balance limit + round-off",
+                        "claimed for the Lag and Muskingum clauses only; StorageRouting's water balance / storage-discharge relation is real-valued and iterative (DESIGN.md section 10)"]
     return ctx.finish("model_checking")
